@@ -5,6 +5,10 @@ ROOT = os.path.dirname(os.path.dirname(os.path.abspath(__file__)))
 
 # id -> (level, technique, level text, level note, design ref)
 CLAIMED = {
+ "C18": ("exploration", "runtime monitoring + fault injection: round-trip oracle, raw-byte marker scan for plaintext leaks, and error-or-clean-rows oracle over tampered module envelopes located by an independent length-prefix walk",
+         "Held on every explored case: both footer modes x footer-key-only / per-column keys x v1/v2 x codecs x bloom filters x 1..n row groups x fresh or Reset-reused writers: (a) rows read with the right keys equal the rows written, a reader lacking a column key gets an error; (b) none of the unique 16-byte markers (nor the PLAIN int64 encodings) of encrypted columns or their statistics occurs in the raw file; (c) byte flips in nonce / ciphertext / tag / length prefix of PRNG modules, truncations, swaps of equal-length modules, transplants of the same module position from a second file (separate config, one shared *EncryptionConfig, same writer after Reset) and a wrong footer key all make the read fail (never different rows). Tamper points are sampled: exploration.",
+         "Module boundaries come from a 4-byte length-prefix walk from offset 4 to the footer. Column names in a plaintext footer may be visible.",
+         "DESIGN.md §4 C18"),
  "C12": ("exploration", "runtime monitoring: reflection-based projection oracle over run-time derived target struct types (delete/permute/add edits at any depth), six conversion entry points",
          "Held on every explored (source type, edited target type, rows, entry point) except the recorded known findings F34/F35: rows read through NewReader(file, schema), ConvertRowGroup (rows and column chunks), ConvertRowReader, CopyRows and MergeRowGroups(schema) equal the projection of the source rows - common columns and nesting identical, added columns nil/zero, count and order unchanged - for <= 4 edits incl. inside lists, nested groups and map values. Sampling: exploration.",
          "Field matching by column name. Common leaves keep their Go type. Incompatibility probing is limited to repeated->scalar targets (recorded as known finding F34: accepted, elements dropped).",
